@@ -467,6 +467,108 @@ func (c *Ctx) namexRun() *nameVerdicts {
 			note("auto-variables", bad, "")
 		}
 	}
+	// identifiers spelled like the default functions, in variable position next to real calls of those functions:
+	// ‹sum + Sum ( max , 2 )› has the variables sum and max ("the identifiers that occur in variable position",
+	// "never function names": what decides is the position, not the spelling). Every default function name, in
+	// three letter cases; with automatic variables on the default collection gets one entry per identifier, with
+	// automatic variables off nothing is created and evaluating reports the missing variable by its name.
+	{
+		var fnames []string
+		for n := range funcArityOracle {
+			if lexemeOf(n).typ == "Word" {
+				fnames = append(fnames, n)
+			}
+		}
+		sort.Strings(fnames)
+		for i, fn := range fnames {
+			for ci, id := range []string{strings.ToLower(fn), fn, strings.ToUpper(fn)} {
+				// a call of the function with its smallest number of arguments, the first one the next function's name as a variable
+				id2 := strings.ToLower(fnames[(i+1)%len(fnames)])
+				var args []string
+				for k := 0; k < funcArityOracle[fn][0]; k++ {
+					args = append(args, fmt.Sprint(k+2))
+				}
+				if len(args) > 0 {
+					args[0] = id2
+				}
+				lex := id + " + " + fn + " ( " + strings.Join(args, " , ") + " )"
+				ids, ok := refIdentifiers(lexemes(lex))
+				if !ok {
+					continue
+				}
+				want := foldUnique(ids)
+				expr := strings.NewReplacer(" ( ", "(", " )", ")", " , ", ", ").Replace(lex)
+				for _, auto := range []bool{true, false} {
+					if !auto && ci != i%3 {
+						continue
+					}
+					m.steps = 0
+					calc, out := m.Call(cctor)
+					if out.kind != "ok" {
+						note("auto-variables", "", "NewExpressionCalculator: "+out.why)
+						continue
+					}
+					where := fmt.Sprintf("SetExpression(%q)", expr)
+					if !auto {
+						where = "SetAutoVariables(false), " + where
+						if _, out := callM(c, m, ct, "SetAutoVariables", calc, false); out.kind != "ok" {
+							note("auto-variables", "", "SetAutoVariables: "+out.why)
+							continue
+						}
+					}
+					r, out := callM(c, m, ct, "SetExpression", calc, expr)
+					if out.kind != "ok" {
+						note("auto-variables", "", where+": "+out.why)
+						continue
+					}
+					if _, isNil := r.(mNilT); !isNil {
+						note("auto-variables", fmt.Sprintf("%s is refused with %s; an identifier spelled like a function is a variable where it stands in variable position", where, errorCode(r)), "")
+						continue
+					}
+					dv, out := callM(c, m, ct, "DefaultVariables", calc)
+					dvi, ok := dv.(mIface)
+					if out.kind != "ok" || !ok {
+						note("auto-variables", "", "DefaultVariables: "+out.why)
+						continue
+					}
+					names, _, why := collectionEntries(c, m, dvi)
+					if why != "" {
+						note("auto-variables", "", why)
+						continue
+					}
+					bad := ""
+					switch {
+					case auto && (len(names) != len(want) || fmt.Sprint(foldUnique(names)) != fmt.Sprint(want)):
+						bad = fmt.Sprintf("automatic variables on, %s: the default collection holds %q; the identifiers in variable position are %q (spelled like functions, but not called), one entry each", where, names, want)
+					case !auto && len(names) != 0:
+						bad = fmt.Sprintf("%s: the default collection holds %q; nothing may be created", where, names)
+					}
+					if !auto && bad == "" {
+						ev, out := callM(c, m, ct, "Evaluate", calc)
+						tp, ok := ev.(mTuple)
+						switch {
+						case out.kind == "panic":
+							bad = fmt.Sprintf("%s: evaluating panics: %s", where, out.why)
+						case out.kind != "ok" || !ok || len(tp) != 2:
+							note("auto-variables", "", where+", Evaluate: "+out.why)
+							continue
+						case errorCode(tp[1]) != "VAR_NOT_FOUND":
+							bad = fmt.Sprintf("%s: evaluating gives %s %s; the variables %q are missing (they are spelled like functions but stand in variable position), which must be reported (VAR_NOT_FOUND)", where, mRender(tp[0]), errorCode(tp[1]), want)
+						default:
+							msg, named := errorField(tp[1], "Message"), false
+							for _, w := range want {
+								named = named || strings.Contains(strings.ToLower(msg), strings.ToLower(w))
+							}
+							if !named {
+								bad = fmt.Sprintf("%s: evaluating reports VAR_NOT_FOUND with the message %q, which names none of the missing variables %q", where, msg, want)
+							}
+						}
+					}
+					note("auto-variables", bad, "")
+				}
+			}
+		}
+	}
 	// unset variables of separate calculators are separate nulls: giving one a value in place leaves the other null
 	{
 		c1, o1 := m.Call(cctor)
